@@ -15,8 +15,8 @@ import time
 VERIF = os.path.dirname(os.path.dirname(os.path.abspath(__file__)))
 REPO = os.environ.get("VERIF_REPO", "/repo")
 SPEC = os.path.join(VERIF, "spec")
-WORK = os.path.join(VERIF, ".work")
-EVID = os.path.join(VERIF, "evidence")
+WORK = os.environ.get("VERIF_WORK", os.path.join(VERIF, ".work"))       # overridden only by the mutant self-tests
+EVID = os.environ.get("VERIF_EVIDENCE_DIR", os.path.join(VERIF, "evidence"))
 TLA_CP = "/opt/veriftools/tla/tla2tools.jar:/opt/veriftools/tla/CommunityModules-deps.jar"
 NCPU = os.cpu_count() or 4
 
@@ -99,7 +99,7 @@ class TlcResult:
 
 
 def run_tlc(module, cfg=None, cwd=None, workers=None, timeout=1200, extra=(), env=None,
-            deadlock=False, coverage=False, stdout_path=None):
+            deadlock=False, coverage=False, stdout_path=None, lib=None):
     """Run TLC on spec/<module>.tla (copied view: cwd defaults to SPEC). Returns TlcResult.
 
     Raises MachineryError on timeout or on TLC-internal errors (parse errors, evaluation
@@ -108,7 +108,7 @@ def run_tlc(module, cfg=None, cwd=None, workers=None, timeout=1200, extra=(), en
     cwd = cwd or SPEC
     meta = os.path.join(WORK, "tlcmeta", f"{module}-{os.getpid()}-{time.time_ns()}")
     os.makedirs(meta, exist_ok=True)
-    cmd = ["java", "-XX:+UseParallelGC", "-Xmx12g", "-cp", TLA_CP + ":" + SPEC, "tlc2.TLC",
+    cmd = ["java", "-XX:+UseParallelGC", "-Xmx12g"] + ([f"-DTLA-Library={lib}"] if lib else []) + ["-cp", TLA_CP + ":" + SPEC, "tlc2.TLC",
            "-workers", str(workers or NCPU), "-metadir", meta, "-noGenerateSpecTE"]
     if not deadlock:
         cmd.append("-deadlock")
@@ -203,12 +203,13 @@ class Report:
         for v in matched:
             print(f"KNOWN-FINDING: property={self.pid} {v.key}: {v.what}")
         lines = []
-        for v in new[:20]:
+        for i, v in enumerate(new[:400]):
             h = hashlib.sha1(v.key.encode()).hexdigest()[:10]
             path = os.path.join(rdir, f"{self.pid}-{h}.json")
             with open(path, "w") as f:
                 json.dump({"property": self.pid, "key": v.key, "what": v.what, "replay": v.replay}, f, indent=1, default=str)
-            lines.append(f"VIOLATION property={self.pid} replay={path}")
+            if i < 25:
+                lines.append(f"VIOLATION property={self.pid} replay={path}")
             print(f"  -> {v.key}: {v.what}")
         for ln in lines:
             print(ln)
@@ -231,7 +232,7 @@ class Report:
 
 # --------------------------------------------------------------------------- trace validation
 
-def judge_traces(traces, pid, module="TraceForest", cfg="TraceForest.cfg", label="traces", timeout=1800):
+def judge_traces(traces, pid, module="TraceForest", cfg="TraceForest.cfg", label="traces", timeout=1800, lib=None):
     """Hand a batch of recorded traces to TLC (code -> spec). Returns (rejects, TlcResult).
 
     rejects: list of dicts {trace, event, clauses}. Raises MachineryError if TLC did not
@@ -242,7 +243,7 @@ def judge_traces(traces, pid, module="TraceForest", cfg="TraceForest.cfg", label
     with open(path, "w") as f:
         json.dump(traces, f, separators=(",", ":"))
     r = run_tlc(module, cfg=os.path.join(SPEC, cfg), workers=1, timeout=timeout, env={"TRACE_FILE": path},
-                stdout_path=os.path.join(d, f"{label}.out"))
+                stdout_path=os.path.join(d, f"{label}.out"), lib=lib)
     if "Model checking completed. No error has been found." not in r.out:
         tail = "\n".join(l for l in r.out.splitlines() if not l.startswith('"'))[-3000:]
         raise MachineryError(f"trace validation did not complete for {label}:\n{tail}")
